@@ -58,7 +58,7 @@ def floors(tier):
     return {"histories": 1500, "configs_run": 9000, "operations": 50000, "handler_successes": 5000, "handler_failures": 1000,
             "plan:ok": 300, "plan:fail_once": 300, "plan:fail_always": 300, "docs_with_3plus_fragments": 500,
             "metaschema_refs_resolved": 2000, "store_doc_refs_resolved": 2000, "evictions_observed": 200,
-            "wrapped_as_RefResolutionError": 1000, "handler_docs_declaring_an_id": 500, "near_identical_url_pairs": 500, "documents_via_urlopen_transport": 300, "documents_via_requests_transport": 300, "transport_failed_first": 100, "direct_retrievals": 300, "scheme_table_changes": 8,
+            "wrapped_as_RefResolutionError": 1000, "handler_docs_declaring_an_id": 500, "near_identical_url_pairs": 500, "documents_via_urlopen_transport": 300, "documents_via_requests_transport": 300, "fetched_documents_referring_into_themselves": 200, "transport_failed_first": 100, "direct_retrievals": 300, "scheme_table_changes": 8,
             "direct_resolutions_content_checked": 5000}
 
 
@@ -118,7 +118,14 @@ def make_world(rng, d):
         for k in range(rng.randrange(1, 3)):
             url = prefix + "u%d.json" % k
             udocs[url] = {"definitions": {"f0": g.keyword_schema("type"), "f1": g.keyword_schema("enum")}, "type": rng.choice(["object", "integer"])}
-            for sp in rng.sample([url, url + "#", url + "#/definitions/f0", url + "#/definitions/f1"], 3):
+            inner = []
+            if prefix == REQUESTS_DIR:
+                # (the http documents live under a scheme urllib joins under, so they can refer into themselves and to their
+                #  neighbours relatively - whether or not the resolver keeps what it fetched; the private schemes cannot: F12)
+                udocs[url]["definitions"].update({"g": {"$ref": "#/definitions/f0"}, "n": {"$ref": "u0.json#/definitions/f1"},
+                                                  "w": {"items": {"$ref": "#/definitions/g"}}})
+                inner = rng.sample([url + "#/definitions/g", url + "#/definitions/n", url + "#/definitions/w"], 2)
+            for sp in rng.sample([url, url + "#", url + "#/definitions/f0", url + "#/definitions/f1"], 3 if not inner else 2) + inner:
                 props["o%d" % len(props)] = {"$ref": sp}
                 refs.append(sp)
     store = {}
@@ -302,6 +309,7 @@ def check_history(ctx, w, ops, plan):
     ctx.count("near_identical_url_pairs", w.get("distinct_pairs", 0))
     ctx.count("documents_via_urlopen_transport", sum(1 for u in (w.get("udocs") or {}) if u.startswith(URLOPEN_DIR)))
     ctx.count("documents_via_requests_transport", sum(1 for u in (w.get("udocs") or {}) if u.startswith(REQUESTS_DIR)))
+    ctx.count("fetched_documents_referring_into_themselves", sum(1 for u, doc in (w.get("udocs") or {}).items() if "g" in doc.get("definitions", {})))
     if w.get("udocs") and w.get("transport_fails_first"):
         ctx.count("transport_failed_first")
     outs = {}
